@@ -14,6 +14,8 @@ import (
 	"io"
 	"strconv"
 	"strings"
+
+	"github.com/richardlehane/mscfb"
 )
 
 // VerifC14WorkSheetReader runs workSheetReader (decode + checkSheet +
@@ -91,7 +93,9 @@ func VerifC14CheckSheet(spec string) string {
 			ws.SheetData.Row = append(ws.SheetData.Row, row)
 		}
 	}
-	ws.checkSheet()
+	if err := ws.checkSheet(); err != nil {
+		return "ERR"
+	}
 	if err := ws.checkRow(); err != nil {
 		return "ERR"
 	}
@@ -186,4 +190,62 @@ func VerifC14EncryptStreams(raw []byte, password string) ([]byte, []byte, error)
 	}
 	pkg = append(pkg, encryptor.encrypt(raw)...)
 	return info, pkg, nil
+}
+
+// VerifC14ExtractStreams returns the EncryptionInfo and EncryptedPackage
+// streams of a compound file the way Decrypt reads them.
+func VerifC14ExtractStreams(raw []byte) (info, pkg []byte, err error) {
+	doc, err := mscfb.New(bytes.NewReader(raw))
+	if err != nil {
+		return nil, nil, err
+	}
+	info, pkg = extractPart(doc)
+	return info, pkg, nil
+}
+
+// VerifC14Sizes reports the number of shared strings and of cell formats of
+// an opened workbook (-1 when the part cannot be read).
+func VerifC14Sizes(f *File) (nSI, nXf int) {
+	nSI, nXf = -1, -1
+	if sst, err := f.sharedStringsReader(); err == nil && sst != nil {
+		nSI = len(sst.SI)
+	}
+	if ss, err := f.stylesReader(); err == nil && ss != nil && ss.CellXfs != nil {
+		nXf = len(ss.CellXfs.Xf)
+	}
+	return
+}
+
+// VerifC14CellSpec decodes the worksheet part like VerifC14DecodeSheetSpec and
+// lists the distinct (t, v, s) triples of shared-string or styled cells
+// ("t-hex:v-hex:s", at most max entries).
+func VerifC14CellSpec(f *File, sheet string, max int) []string {
+	name, found := f.getSheetXMLPath(sheet)
+	if !found {
+		return nil
+	}
+	ws := new(xlsxWorksheet)
+	if err := f.xmlNewDecoder(bytes.NewReader(namespaceStrictToTransitional(f.readBytes(name)))).
+		Decode(ws); err != nil && err != io.EOF {
+		return nil
+	}
+	seen := map[string]bool{}
+	var out []string
+	for i := range ws.SheetData.Row {
+		for j := range ws.SheetData.Row[i].C {
+			c := &ws.SheetData.Row[i].C[j]
+			if c.T != "s" && c.S == 0 {
+				continue
+			}
+			if len(c.V) > 64 || len(c.T) > 16 {
+				continue
+			}
+			k := verifHex(c.T) + ":" + verifHex(c.V) + ":" + strconv.Itoa(c.S)
+			if !seen[k] && len(out) < max {
+				seen[k] = true
+				out = append(out, k)
+			}
+		}
+	}
+	return out
 }
